@@ -280,6 +280,11 @@ func serverCEA(req RefMsg, kind string) RefMsg {
 			g.Group = []RefAVP{vid, ac, au}
 		}
 		a.AVPs = append(a.AVPs, g)
+	case "success-dual-auth":
+		// an application the dictionary declares under both types, named with the first-declared one
+		a.AVPs = append(a.AVPs, RefAVP{Code: avpAuthApp, Flags: 0x40, Data: u32(9001)})
+	case "success-dual-acct":
+		a.AVPs = append(a.AVPs, RefAVP{Code: avpAcctApp, Flags: 0x40, Data: u32(9001)})
 	case "success-no-sharing":
 		a.AVPs = append(a.AVPs, RefAVP{Code: avpAuthApp, Flags: 0x40, Data: u32(999)})
 	case "success-no-sharing-vs":
@@ -291,7 +296,7 @@ func serverCEA(req RefMsg, kind string) RefMsg {
 
 // ceaOutcome is the reference verdict for a CEA kind: does the dial return a connection?
 func ceaSharing(kind string) bool {
-	return kind == "success" || kind == "success-vs" || kind == "dup-success" || kind == "success-vs-two" || kind == "success-vs-two-rev"
+	return kind == "success" || kind == "success-vs" || kind == "dup-success" || kind == "success-vs-two" || kind == "success-vs-two-rev" || kind == "success-dual-auth" || kind == "success-dual-acct"
 }
 
 func serverDWA(req RefMsg, rc uint32) RefMsg {
@@ -365,7 +370,7 @@ func drawHsScript(w *smcWorld) hsScript {
 	if s.answerCER > w.R+2 {
 		s.answerCER = w.R + 1
 	}
-	s.ceaKind = []string{"success", "success", "success-vs", "failed", "failed-3xxx", "success-no-sharing", "success-no-sharing-vs", "success-appless", "no-result-code", "no-origin-host", "success-vs-two", "success-vs-two-rev"}[t.Pick(4, 3, 2, 2, 1, 1, 1, 1, 1, 1, 1, 1)]
+	s.ceaKind = []string{"success", "success", "success-vs", "failed", "failed-3xxx", "success-no-sharing", "success-no-sharing-vs", "success-appless", "no-result-code", "no-origin-host", "success-vs-two", "success-vs-two-rev", "success-dual-auth", "success-dual-acct"}[t.Pick(4, 3, 2, 2, 1, 1, 1, 1, 1, 1, 1, 1, 1, 1)]
 	switch t.Pick(3, 3, 2, 2, 2, 1, 1) {
 	case 0:
 		s.delay, s.delayClass = 0, "immediate"
@@ -1490,7 +1495,7 @@ func c10ClientTwo(e *Env) {
 
 // ---------------------------------------------------------------- C12 sweep
 
-var c12SweepKinds = []string{"success", "success-vs", "failed", "failed-3xxx", "success-no-sharing", "success-no-sharing-vs", "success-appless", "no-result-code", "no-origin-host", "dup-success", "success-vs-two", "success-vs-two-rev"}
+var c12SweepKinds = []string{"success", "success-vs", "failed", "failed-3xxx", "success-no-sharing", "success-no-sharing-vs", "success-appless", "no-result-code", "no-origin-host", "dup-success", "success-vs-two", "success-vs-two-rev", "success-dual-auth", "success-dual-acct"}
 var c12SweepDelays = []string{"immediate", "half", "deadline-1ns", "deadline+1ns", "on-deadline", "after-budget"}
 
 type c12Case struct {
